@@ -93,6 +93,127 @@ def after_failed_encode(ctx, g):
                         % (bt, tn, v, bytes(e.data).hex(), want.hex()), {"type_name": tn, "bytes": bytes(e.data).hex(), "failed_table": bt})
 
 
+WIDER = {"uint8_t": "uint16_t", "uint16_t": "uint32_t", "uint32_t": "uint64_t", "int8_t": "int16_t", "int16_t": "int32_t", "int32_t": "int64_t"}
+
+
+def widen(t):
+    """the same type tree with every integer leaf one size wider (every value of the old type is a value of the new one, with
+    other bytes), or None when nothing changes"""
+    nm, subs = t
+    if nm in WIDER:
+        return (WIDER[nm], [])
+    new = [widen(x) for x in subs]
+    if all(x is None for x in new):
+        return None
+    return (nm, [n if n is not None else o for n, o in zip(new, subs)])
+
+
+def through_saved_files(ctx, g, cases):
+    """The bytes of a table as they END UP IN A FILE: tables on an IR and on its modules are saved, the written message is parsed
+    with the schema classes and every table's bytes and type name compared with the independent encoder; the file is loaded and
+    the tables are saved again -- untouched, after a read, and given a wider integer type WITHOUT being read (the bytes in the new
+    file must be the encoding of the value under the new name, not the old bytes under it)."""
+    import io
+    IRm = gtirb_from_repo.msg("IR")
+    todo = []
+    for (t, v, env) in cases:
+        try:
+            bs = bytes(oracle_encode(t, v, env))
+        except OracleError:
+            continue
+        todo.append((t, v, env, bs))
+        if len(todo) >= (400 if ctx.quick else 3000):
+            break
+    if not todo:
+        return
+    env = todo[0][2]
+    ir = env.ir
+    holders = [ir] + list(ir.modules)
+    keys = {}
+    for k, (t, v, env_, bs) in enumerate(todo):
+        h = holders[k % len(holders)]
+        key = "t%d" % k
+        try:
+            h.aux_data[key] = g.AuxData(v, type_str(t))
+        except Exception as e:  # noqa: BLE001
+            ctx.add("oracle", "bytes-differ-from-format", "AuxData(value, %s) raises %s" % (type_str(t), exc_name(g, e)), {"type_name": type_str(t)})
+            continue
+        keys[key] = (k % len(holders), t, v, bs)
+
+    def tables(msg):
+        out = dict(("0:" + k, a) for k, a in msg.aux_data.items())
+        for i, m in enumerate(msg.modules):
+            for k, a in m.aux_data.items():
+                out["%d:%s" % (i + 1, k)] = a
+        return out
+
+    def save(x, what):
+        buf = io.BytesIO()
+        try:
+            x.save_protobuf_file(buf)
+        except Exception as e:  # noqa: BLE001
+            ctx.add("oracle", "bytes-differ-from-format", "%s: save raises %s" % (what, exc_name(g, e)), {"stage": what})
+            return None, None
+        msg = IRm()
+        msg.ParseFromString(buf.getvalue()[8:])
+        return buf.getvalue(), tables(msg)
+
+    def judge(tabs, expect, what, exact=True):
+        for key, (hi, t, v, bs) in keys.items():
+            want_tn, want_bs = expect(key, t, v, bs)
+            a = tabs.get("%d:%s" % (hi, key))
+            ctx.count("tables_in_files_checked")
+            same = a is not None and a.type_name == want_tn and bytes(a.data) == want_bs
+            if not same and not exact and a is not None and a.type_name == want_tn:
+                # a table that was read is written from the decoded value: element order and merged repetitions aside
+                try:
+                    t_now = retyped_now.get(key, t)
+                    got_c, end = auxval.wire_canon(t_now, bytes(a.data))
+                    same = end == len(a.data) and got_c == auxval.wire_canon(t_now, want_bs)[0]
+                except Exception:  # noqa: BLE001
+                    same = False
+            if not same:
+                ctx.add("oracle", "bytes-differ-from-format", "%s: the table of type %s is written as (%s, %s), the format prescribes (%s, %s)"
+                        % (what, type_str(t), a.type_name if a is not None else None, bytes(a.data).hex()[:60] if a is not None else None, want_tn, want_bs.hex()[:60]),
+                        {"stage": what, "type_name": type_str(t), "value_sx": to_sx(v, env, t)})
+                return False
+        return True
+    retyped_now = {}
+    data, tabs = save(ir, "first save")
+    if tabs is None or not judge(tabs, lambda key, t, v, bs: (type_str(t), bs), "first save"):
+        for key in keys:
+            holders[keys[key][0]].aux_data.pop(key, None)
+        return
+    try:
+        for stage in ("untouched", "read", "retyped-unread"):
+            ir2 = g.IR.load_protobuf_file(io.BytesIO(data))
+            hs2 = [ir2] + list(ir2.modules)
+            retyped = {}
+            for key, (hi, t, v, bs) in keys.items():
+                ad = hs2[hi].aux_data[key]
+                if stage == "read":
+                    ad.data
+                elif stage == "retyped-unread":
+                    t2 = widen(t)
+                    if t2 is not None:
+                        ad.type_name = type_str(t2)
+                        retyped[key] = t2
+                        ctx.count("tables_retyped_without_read")
+
+            def expect(key, t, v, bs):
+                if key in retyped:
+                    return type_str(retyped[key]), bytes(oracle_encode(retyped[key], v, env))
+                return type_str(t), bs
+            retyped_now.clear()
+            retyped_now.update(retyped)
+            _, tabs2 = save(ir2, "saved again after load (%s)" % stage)
+            if tabs2 is None or not judge(tabs2, expect, "saved again after load (%s)" % stage, exact=(stage == "untouched")):
+                break
+    finally:
+        for key in keys:
+            holders[keys[key][0]].aux_data.pop(key, None)
+
+
 def run(ctx):
     g = gtirb_from_repo.load()
     n = 1500 if ctx.quick else 25000
@@ -177,6 +298,7 @@ def run(ctx):
         except ImportError:
             ctx.count("java_leg_unavailable")
     ctx.cov["traces_validated_against_impl"] = len(meta) + len(nc_bytes)
+    through_saved_files(ctx, g, cases)
     instance_isolation(ctx, g)
     after_failed_encode(ctx, g)
     import codec_cases as _cc
